@@ -3,6 +3,7 @@
    page  <limit> <cursor> <entries>      entries: one letter per index entry, in index order ("-" = none):
    pages <limit> <entries>                 a = accepted by the filters, r = rejected,
    unlimited <entries>                     s = the iterator's early exit fires at this entry
+   count <limit> <cursor> <entries>        the integer a COUNT query answers (limit as given)
      replies:  page      -> "<cursor> <i,j,...>"   (0-based positions of the returned entries, "-" if none)
                pages     -> "<i,j,...>|<...>|..."  or "FUEL"
                unlimited -> "<i,j,...>"
@@ -39,6 +40,8 @@ let handle (toks : string list) : string =
       (match pages test_e stop_e (entries_of es) (eff_limit (n_of_str limit)) with
        | PagesFuel -> "FUEL"
        | Pages ps -> String.concat "|" (List.map idxs ps))
+  | ["count"; limit; cursor; es] ->   (* COUNT output: the limit is taken as given (no default of 100) *)
+      str_of_n (count_query test_e stop_e (entries_of es) (n_of_str cursor) (n_of_str limit))
   | ["unlimited"; es] -> idxs (unlimited test_e stop_e (entries_of es))
   | "scan_range" :: desc :: start :: end_ :: limit :: cursor :: mask :: ids ->
       let ids = List.map bytes_of_hex ids in
